@@ -86,6 +86,12 @@ type Script struct {
 	Gens  []Gen `json:"gens"`
 	Final Act   `json:"final"`          // stop event used when the run is quiescent (Running, nothing pending) and alive
 	Post  int   `json:"post,omitempty"` // Shutdown() calls after Run returned
+	// Loggers: background goroutines of the configuration providers that log continuously through the logger the
+	// collector gave them (confmap.ProviderSettings.Logger), from the first Retrieve until provider Shutdown.
+	Loggers int `json:"loggers,omitempty"`
+	// Storm: after the scripted generations, this many further reloads (one change notification each, through plain
+	// good configurations) before the final stop.
+	Storm int `json:"storm,omitempty"`
 }
 
 // ---------------------------------------------------------------------------
@@ -215,6 +221,20 @@ func gen(t *rapid.T) Script {
 	}
 	s.Final = genAct(t, "final", finalKinds)
 	s.Post = uni(t, "post", 4)
+	if pct(t, "loggers", 30) {
+		s.Loggers = 1 + uni(t, "loggers-n", 16)
+	}
+	if pct(t, "storm", 4) {
+		s.Storm = 10 + uni(t, "storm-n", 51)
+		if s.Loggers == 0 || rapid.Bool().Draw(t, "storm-loggers") {
+			s.Loggers = 8 + uni(t, "storm-loggers-n", 9)
+		}
+		// a storm needs a run that stays up: one good first generation without events of its own
+		g := &s.Gens[0]
+		g.Kind, g.ShutFail, g.CloseFail, g.FatalSync = "good", -1, 0, ""
+		g.AtStart, g.AtRunning, g.AtShut = nil, nil, nil
+		s.Gens, s.Pre = s.Gens[:1], 0
+	}
 	return s
 }
 
@@ -256,9 +276,10 @@ type driver struct {
 	nextResend   time.Time
 	lastNudge    time.Time
 
-	fired     []string // what was actually fired, in order ("running:g0:change", …)
-	stopKinds map[string]bool
-	sawClosed bool
+	fired                 []string // what was actually fired, in order ("running:g0:change", …)
+	stopKinds             map[string]bool
+	sawClosed             bool
+	stormLeft, stormFired int
 	// bursts of watcher calls (each on its own goroutine)
 	burstCalls, burstReturned, burstPanics atomic.Int32
 	inexactBurst                           bool
@@ -695,6 +716,11 @@ func (d *driver) drive(limit time.Duration) (finished bool, stuck string) {
 				}
 				d.w.add(gen, "", "h:observed-running", false)
 				d.fire("running", gen, acts, false, "")
+			case d.stormLeft > 0 && d.stop == stopNone && !d.lossy && gen >= len(d.s.Gens)-1:
+				// reload storm: one change notification, wait for the next generation to be Running, repeat
+				d.stormLeft--
+				d.stormFired++
+				d.fire("storm", gen, []Act{{K: "change"}}, false, "")
 			case !d.finalFired:
 				d.finalFired = true
 				a := d.s.Final
@@ -1020,6 +1046,12 @@ func hangSig(stacks string) string {
 			return fatalHangSig
 		}
 	}
+	for _, gr := range strings.Split(stacks, "\n\n") {
+		// Run's goroutine waiting for the write lock of the provider logger's core while it swaps that core
+		if strings.Contains(gr, "RWMutex") && strings.Contains(gr, "SetCore") && strings.Contains(gr, "setupConfigurationComponents") {
+			return "hang/logger-core-swap-blocked"
+		}
+	}
 	return "hang/run-does-not-return"
 }
 
@@ -1146,6 +1178,21 @@ func classify(c *vt.C, d *driver) {
 			c.Class("extension-shutdown-fails:last-in-stop-order")
 		}
 	}
+	switch {
+	case s.Loggers >= 8:
+		c.Class("provider-logging-goroutines:>=8")
+	case s.Loggers > 0:
+		c.Class("provider-logging-goroutines:1-7")
+	}
+	if s.Loggers > 0 && reloads > 0 {
+		c.ClassN("reloads-while-providers-log", int64(d.w.numRetrieves()-1))
+	}
+	if d.stormFired > 0 {
+		c.Class("reload-storm(10-60)")
+		if d.stormFired >= 30 {
+			c.Class("reload-storm:>=30-reloads")
+		}
+	}
 	if n := d.fatalReports + int(d.w.syncFatal.Load()); n > 1 {
 		c.Class("fatal:several-reports-in-one-run")
 	}
@@ -1183,7 +1230,11 @@ func run(c *vt.C) func(Script) (bool, string, *vt.Finding) {
 		if err != nil {
 			return false, key, vt.Failf("harness/new-collector", "NewCollector: %v", err)
 		}
-		d := &driver{c: c, w: w, s: &s, col: col, firedRunning: map[int]bool{}, stopKinds: map[string]bool{}}
+		d := &driver{c: c, w: w, s: &s, col: col, firedRunning: map[int]bool{}, stopKinds: map[string]bool{}, stormLeft: s.Storm}
+		defer func() { // the providers' logging goroutines end with the case at the latest
+			w.stopLoggers()
+			w.logWG.Wait()
+		}()
 		limit := inProcessLimit
 		var finished bool
 		var stuck string
